@@ -1,0 +1,44 @@
+use std::collections::HashMap;
+use std::fmt;
+use std::hash::Hash;
+use std::marker::PhantomData;
+
+use serde::de::{Deserialize, Deserializer, Error, MapAccess, Visitor};
+
+/// Deserializes a map and refuses a key given more than once (a plain `HashMap` keeps the
+/// last value silently).
+pub(crate) fn deserialize_unique_map<'de, D, K, V>(
+    deserializer: D,
+) -> Result<HashMap<K, V>, D::Error>
+where
+    D: Deserializer<'de>,
+    K: Deserialize<'de> + Eq + Hash + fmt::Display,
+    V: Deserialize<'de>,
+{
+    struct UniqueMapVisitor<K, V>(PhantomData<(K, V)>);
+
+    impl<'de, K, V> Visitor<'de> for UniqueMapVisitor<K, V>
+    where
+        K: Deserialize<'de> + Eq + Hash + fmt::Display,
+        V: Deserialize<'de>,
+    {
+        type Value = HashMap<K, V>;
+
+        fn expecting(&self, formatter: &mut fmt::Formatter) -> fmt::Result {
+            formatter.write_str("a map where each key is given once")
+        }
+
+        fn visit_map<A: MapAccess<'de>>(self, mut access: A) -> Result<Self::Value, A::Error> {
+            let mut map = HashMap::new();
+            while let Some((key, value)) = access.next_entry::<K, V>()? {
+                if map.contains_key(&key) {
+                    return Err(A::Error::custom(format!("duplicate key `{}`", key)));
+                }
+                map.insert(key, value);
+            }
+            Ok(map)
+        }
+    }
+
+    deserializer.deserialize_map(UniqueMapVisitor(PhantomData))
+}
